@@ -61,7 +61,7 @@ pub trait DSet: Sized {
                 self.sm(i, i + 1, self.sop(i + 1, d).unwrap() as int) == self.sm(i, i + 1, d);
 
     fn size(&self) -> (r: usize) requires self.wf() ensures r == self.ssize();
-    fn dim(&self) -> (r: usize) requires self.wf() ensures r == self.sdim();
+    fn dim(&self) -> (r: usize) ensures r == self.sdim();       // (no precondition: `grow` reads it between two updates)
     // C02 "out-of-range arguments give None rather than a panic": total on usize x usize
     fn op(&self, i: usize, d: usize) -> (r: Option<usize>) requires self.wf() ensures r == self.sop(i as int, d as int);
     fn m(&self, i: usize, j: usize, d: usize) -> (r: Option<usize>) requires self.wf() ensures r == self.sm(i as int, j as int, d as int);
@@ -743,6 +743,39 @@ impl PartialDSet {
                         assert(tbl(o1, dim, j, x0) == tbl(o0, dim, j, x0));
                     }
                 }
+            }
+        }
+    }
+    //@ end
+
+    // C02: the second public mutator.  New chambers come with every operation undefined; nothing else changes.
+    //@ begin src/dsets.rs :: impl PartialDSet :: fn grow | props=C02
+    //@ rw R14 /^([ \t]*)self\.op\.append\(&mut vec!\[0 as usize; count \* \(self\.dim\(\) \+ 1\)\]\);/\1let mut __new = vec![0 as usize; count * (self.dim() + 1)];\n\1self.op.append(&mut __new);/
+    pub fn grow(&mut self, count: usize)
+        // (the additions and the product in the body overflow otherwise: a panic in debug builds)
+        requires old(self).inv(), old(self).size + count < usize::MAX, (old(self).size + count) * (old(self).dim + 1) <= usize::MAX,
+        ensures final(self).inv(), final(self).size == old(self).size + count, final(self).dim == old(self).dim,
+            forall|i: int, d: int| 0 <= i <= old(self).dim && 1 <= d <= old(self).size ==> #[trigger] final(self).t(i, d) == old(self).t(i, d),
+            forall|i: int, d: int| 0 <= i <= old(self).dim && old(self).size < d <= old(self).size + count ==> #[trigger] final(self).t(i, d) == 0,
+    {
+        proof {
+            assert(count * (self.dim + 1) + self.size * (self.dim + 1) == (self.size + count) * (self.dim + 1)) by(nonlinear_arith);
+            assert(count * (self.dim + 1) >= 0) by(nonlinear_arith);
+        }
+        let ghost o0 = self.op@;
+        self.size += count;
+        let mut __new = vec![0 as usize; count * (self.dim() + 1)];
+        self.op.append(&mut __new);
+        proof {
+            reveal(tbl);
+            let dim = self.dim as int;
+            let o1 = self.op@;
+            let s0 = old(self).size as int;
+            assert(o1.len() == self.size * (dim + 1));
+            assert forall|i: int, d: int| 0 <= i <= dim && 1 <= d <= self.size implies #[trigger] tbl(o1, dim, i, d) == (if d <= old(self).size { tbl(o0, dim, i, d) } else { 0 }) by {
+                lemma_idx_bound(self.size as int, dim, i, d);
+                if d <= old(self).size { lemma_idx_bound(old(self).size as int, dim, i, d); }
+                else { assert(sidx(dim, i, d) >= s0 * (dim + 1)) by(nonlinear_arith) requires d > s0, 0 <= i, dim >= 0, sidx(dim, i, d) == (d - 1) * (dim + 1) + i; }
             }
         }
     }
